@@ -52,6 +52,7 @@ def run(P, rep, tier):
     rep.attempt(r5_sorted_registration, P, rep, ctx)
     rep.attempt(r6_codec, P, rep, ctx)
     rep.attempt(r7_versionless, P, rep, ctx)
+    rep.attempt(r8_group_lookup_key, P, rep, ctx)
     rep.floor("C16.R1", 4)
     rep.floor("C16.R4", 2)
     rep.floor("C16.R5", 5)
@@ -604,6 +605,22 @@ def sep_re(s: str) -> str:
 
 
 # ------------------------------------------------------------------------------------------- R7
+def r8_group_lookup_key(P, rep, ctx):
+    """`plugingroups.get(name, version)` resolves the request to the newest compatible registered group class and then
+    looks the *instance* up under that class's own reference.  The key is the resolved plugin's reference, never one built
+    from the requested version: a compatible request with a lower minor version has no entry of its own."""
+    fi = P.func("plugins.PGPluginGroup.get")
+    f = F(ctx, fi)
+    n = 0
+    for i, c, b in f.call_sites("self._self_groups.get(__k)") + f.call_sites("self._self_groups[__k]"):
+        k = f.xe_at(i, b["__k"])
+        n += 1
+        ok = isinstance(k, ast.Call) and isinstance(k.func, ast.Attribute) and k.func.attr == "ref" and norm(k.func.value).endswith(".Plugin") and not k.args and not any(kw.arg in ("version", "name", None) for kw in k.keywords)
+        rep.check(ok, "C16.R8", fi.qual, "the group instance is looked up under the resolved plugin's own reference", fi.loc(c), construct=f"group key {norm(k)[:70]}",
+                  message=f"PGPluginGroup.get looks the group up under `{norm(k)[:90]}`: a reference carrying the *requested* name / version instead of the resolved plugin's own `Plugin.ref()` misses the registered instance for every compatible but not identical request (get returns None where resolve finds a plugin)")
+    rep.check(n >= 1, "C16.R8", fi.qual, "group lookup site found", fi.loc(), construct="_self_groups lookup", message="PGPluginGroup.get no longer looks instances up in _self_groups: rule has nothing to check")
+
+
 def r7_versionless(P, rep, ctx):
     fi = P.func(f"{PG}.get")
     f = F(ctx, fi)
@@ -649,4 +666,5 @@ def r7_versionless(P, rep, ctx):
     mf = F(ctx, mk)
     cp = mk.params[1]
     rets = [v for _, v in mf.returns() if v is not None]
-    rep.check(len(rets) >= 1 and all(MM.equivalent(mf.xe(v), f"{cp} is not cls and issubclass({cp}, cls)") for v in rets), "C16.R7", mk.qual, "_is_marked == proper subclass of the marker", mk.loc(), construct="_is_marked", message=f"_is_marked is {mf.return_texts()}")
+    rf = mf.result_formula()
+    rep.check(rf is not None and MM.equivalent(rf, f"{cp} is not cls and issubclass({cp}, cls)"), "C16.R7", mk.qual, "_is_marked == proper subclass of the marker", mk.loc(), construct="_is_marked", message=f"_is_marked is {mf.return_texts()}")
